@@ -843,6 +843,56 @@ pub fn run_replay(args: &[String]) {
     rec.finish();
 }
 
+/// Replay paths exported by TLC from spec/Bitfield.tla (one per reachable state of the paged
+/// bitfield model) on a real writer.  A model index stands for a range of real indices: with
+/// `page_bits` 2, bit 0 of page p is [p*32768, p*32768+32767) and bit 1 the last index of the
+/// page; with 4, the bits are the first index, the second up to the last but two, and the last
+/// two.  Every model bit is appended as one run of identical one-byte blocks of its own.
+pub fn run_bfreplay(args: &[String]) {
+    let get = |name: &str, d: &str| args.iter().position(|a| a == name).and_then(|i| args.get(i + 1).cloned()).unwrap_or_else(|| d.to_string());
+    let input = get("--in", "");
+    let out = get("--out", "trace.ndjson");
+    let pb: u64 = get("--page-bits", "2").parse().unwrap();
+    let only: Option<usize> = args.iter().position(|a| a == "--only").and_then(|i| args.get(i + 1).and_then(|v| v.parse().ok()));
+    let cuts: Vec<u64> = if pb == 2 { vec![0, 32767] } else { vec![0, 1, 32766, 32767] };
+    let real = |l: u64| (l / pb) * 32768 + cuts[(l % pb) as usize];
+    let rec = Rec::new(&out, 240);
+    let mut d = Driver { rec: rec.clone(), rng: StdRng::seed_from_u64(11), suffix_salt: 11, cid: "w".into() };
+    let text = std::fs::read_to_string(&input).unwrap();
+    for (n, line) in text.lines().enumerate() {
+        if line.trim().is_empty() || (only.is_some() && only != Some(n)) {
+            continue;
+        }
+        let hist: Value = serde_json::from_str(line).unwrap();
+        let steps = hist.as_array().unwrap();
+        let mut ops: Vec<Op> = vec![];
+        for (i, st) in steps.iter().enumerate() {
+            match st[0].as_str().unwrap() {
+                "append" => {
+                    let (len, k) = (st[1].as_u64().unwrap(), st[2].as_u64().unwrap());
+                    let mut blocks: Vec<Vec<u8>> = vec![];
+                    for m in len..len + k {
+                        for _ in real(m)..real(m + 1) {
+                            blocks.push(vec![m as u8 + 1]);
+                        }
+                    }
+                    ops.push(Op::Batch(blocks));
+                }
+                "clear" => ops.push(Op::Clear(real(st[1].as_u64().unwrap()), real(st[2].as_u64().unwrap()))),
+                "open" => {
+                    if i > 0 && steps[i - 1][0] == "close" {
+                        ops.push(Op::Reopen);
+                    }
+                }
+                _ => {}
+            }
+        }
+        let gen = json!({"drv":"abs","hist":hist.clone(),"args":format!("bfreplay --in {input} --page-bits {pb} --only {n}")});
+        d.history(&ops, 0, &FaultCfg::none(), gen);
+    }
+    rec.finish();
+}
+
 pub fn profile(name: &str, ops: usize) -> GenCfg {
     match name {
         // short histories over a small alphabet, for exhaustive fault enumeration
